@@ -29,10 +29,13 @@ func lookupNode[T any](urlTree *URLTree[T], url string) lookupNodeResult[T] {
 	currentNode := urlTree.Root
 	var params map[string]string
 	var foundWildcardNode *Node[T]
+	// the declared pattern of foundWildcardNode: the path up to its parent plus the wildcard
+	foundWildcardPath := ""
 	urlPath := ""
 	for _, urlPart := range splitURL {
 		if currentNode.WildcardChild != nil {
 			foundWildcardNode = currentNode.WildcardChild
+			foundWildcardPath = wildcardPath(urlPath, currentNode.WildcardChild)
 		}
 		child, found := currentNode.ConstantChildren[urlPart.Value]
 		if found && child.IsPartOfHost == urlPart.IsPartOfHost {
@@ -74,12 +77,11 @@ func lookupNode[T any](urlTree *URLTree[T], url string) lookupNodeResult[T] {
 
 		if foundWildcardNode != nil {
 			// Didn't find exact value, but found a matching wildcard
-			urlPath = urlPath + getDelimiter(urlPart) + wildcard
 			return buildLookupNodeResult(
 				true,
 				foundWildcardNode,
 				params,
-				urlPath,
+				foundWildcardPath,
 			)
 		}
 
@@ -93,15 +95,20 @@ func lookupNode[T any](urlTree *URLTree[T], url string) lookupNodeResult[T] {
 	// Exact value not found, check if node has wildcard child
 	if currentNode.WildcardChild != nil {
 		return buildLookupNodeResult(
-			true, currentNode.WildcardChild, params, urlPath)
+			true, currentNode.WildcardChild, params,
+			wildcardPath(urlPath, currentNode.WildcardChild))
 	}
 	// Check if a matching wildcard was found in a parent node
 	if foundWildcardNode != nil {
-		return buildLookupNodeResult(true, foundWildcardNode, params, urlPath)
+		return buildLookupNodeResult(true, foundWildcardNode, params, foundWildcardPath)
 	}
 
 	// No match found, return the node that was found with noMatch
 	return buildLookupNodeResult(false, currentNode, params, urlPath)
+}
+
+func wildcardPath[T any](parentPath string, wildcardNode *Node[T]) string {
+	return parentPath + getDelimiter(urlPart{IsPartOfHost: wildcardNode.IsPartOfHost}) + wildcard
 }
 
 func getDelimiter(urlPart urlPart) string {
